@@ -128,6 +128,19 @@ def inline_body(F, body, depth=3, _stack=None, keep=()):
                 cb = F.bodies.get(r[1]["closure"])
                 if cb is not None and not cb.is_coroutine and r[1]["closure"] not in origin_stack and len(cb.blocks) <= MAX_BLOCKS:
                     callee, mode = cb, "closure"
+        async_info = None
+        pending_subst = None
+        if callee is None and t["k"] == "call" and strip_generics(t.get("callee", "")) == "core::future::future::Future::poll" and t.get("target") is not None:
+            # `.await` of a workspace-local async fn / async block: the poll resolves to that coroutine's body
+            res = t.get("resolved") or ""
+            cb = F.bodies.get(res)
+            if cb is not None and cb.is_coroutine and res not in origin_stack and res not in keep and strip_generics(res) not in keep \
+                    and len(cb.blocks) <= MAX_BLOCKS and any("Await" in m for m in t.get("macros", [])):
+                tmp_body = Body(raw, body.crate)
+                tmp_body.path = body.path
+                async_info = _await_parts(tmp_body, t, res)
+                if async_info is not None:
+                    callee, mode = cb, "async"
         if callee is None:
             continue
         budget -= 1
@@ -145,6 +158,22 @@ def inline_body(F, body, depth=3, _stack=None, keep=()):
         if mode == "fn":
             for i, a in enumerate(t["args"]):
                 stmts.append({"k": "assign", "pl": {"l": lo + 1 + i, "p": []}, "rv": {"k": "use", "op": a}, "span": span})
+        elif mode == "async":
+            fut_local, ctx_local, upvars = async_info
+            stmts.append({"k": "assign", "pl": {"l": lo + 1, "p": []}, "rv": {"k": "use", "op": {"k": "move", "pl": {"l": fut_local, "p": []}}}, "span": span})
+            if ctx_local is not None:
+                stmts.append({"k": "assign", "pl": {"l": lo + 2, "p": []}, "rv": {"k": "use", "op": {"k": "copy", "pl": {"l": ctx_local, "p": []}}}, "span": span})
+            if upvars is not None:
+                # captured arguments: `_1.i` of the callee becomes a fresh local bound to the operand the coroutine was built from
+                base = len(raw["locals"])
+                umap = {}
+                for i, a in enumerate(upvars):
+                    nl = base + i
+                    ty = ""
+                    raw["locals"].append({"id": nl, "ty": ty, "inlined_from": callee.path, "upvar": i})
+                    umap[i] = nl
+                    stmts.append({"k": "assign", "pl": {"l": nl, "p": []}, "rv": {"k": "use", "op": copy.deepcopy(a)}, "span": span})
+                pending_subst = (lo + 1, umap)
         else:
             stmts.append({"k": "assign", "pl": {"l": lo + 1, "p": []}, "rv": {"k": "use", "op": t["args"][0]}, "span": span})
             tup = t["args"][1] if len(t["args"]) > 1 else None
@@ -157,24 +186,409 @@ def inline_body(F, body, depth=3, _stack=None, keep=()):
         inl = blk.get("inl_stack", []) + [callee.path]
         for cbk in craw["blocks"]:
             _shift_block(cbk, lo, bo)
+            if mode == "async" and pending_subst is not None:
+                _subst_block(cbk, pending_subst[0], pending_subst[1])
             cbk["origin"] = cbk.get("origin", callee.path)
             cbk["inl_stack"] = inl
             if "unwind" in cbk["term"]:
                 cbk["term"]["unwind"] = None
             if cbk["term"]["k"] == "return" and not cbk.get("cleanup"):
                 if dest is not None:
-                    cbk["stmts"].append({"k": "assign", "pl": copy.deepcopy(dest), "rv": {"k": "use", "op": {"k": "move", "pl": {"l": lo, "p": []}}}, "span": span})
+                    if mode == "async":
+                        rv = {"k": "agg", "agg": "adt", "adt": "core::task::poll::Poll", "vidx": 0, "variant": "Ready", "fields": ["0"],
+                              "ops": [{"k": "move", "pl": {"l": lo, "p": []}}]}
+                    else:
+                        rv = {"k": "use", "op": {"k": "move", "pl": {"l": lo, "p": []}}}
+                    cbk["stmts"].append({"k": "assign", "pl": copy.deepcopy(dest), "rv": rv, "span": span})
                 cbk["term"] = {"k": "goto", "target": target, "span": span, "inlined_return": True}
+                cbk["ret_merge"] = True
             raw["blocks"].append(cbk)
         blk["stmts"] = blk["stmts"] + stmts
         blk["term"] = {"k": "goto", "target": bo, "span": span, "inlined_call": callee.path}
         work.extend(range(bo, bo + len(craw["blocks"])))
     if not changed:
         return body
+    thread_jumps(raw)
     nb = Body(raw, body.crate)
     nb.unit = getattr(body, "unit", None)
     nb.inlined = True
     return nb
+
+
+def _await_parts(tb, t, callee_path):
+    """(future local, task-context local or None, coroutine operands or None) of a desugared `.await` poll"""
+    a0 = t["args"][0]
+    if a0.get("k") not in ("copy", "move"):
+        return None
+    l = a0["pl"]["l"]
+    fut = None
+    for _ in range(8):
+        d = flow.single_def(tb, l)
+        if d is None:
+            break
+        if d[0] == "call" and strip_generics(d[2].callee) in ("core::pin::Pin::new_unchecked", "core::pin::Pin::new") and d[2].args and d[2].args[0].get("k") in ("copy", "move"):
+            l = d[2].args[0]["pl"]["l"]
+            continue
+        if d[0] == "assign" and d[3]["k"] == "ref":
+            pl = d[3]["pl"]
+            if [e for e in pl["p"] if e != "*"]:
+                break
+            if not pl["p"]:
+                fut = pl["l"]
+                break
+            l = pl["l"]
+            continue
+        if d[0] == "assign" and d[3]["k"] == "use" and d[3]["op"].get("k") in ("copy", "move") and not d[3]["op"]["pl"]["p"]:
+            l = d[3]["op"]["pl"]["l"]
+            continue
+        break
+    if fut is None:
+        return None
+    # task context: poll(_, &mut *get_context(ctx))
+    ctx = None
+    if len(t["args"]) > 1 and t["args"][1].get("k") in ("copy", "move"):
+        r = flow.root(tb, t["args"][1], through_calls=("core::future::get_context",))
+        if r[0] in ("multi", "arg", "local", "yield"):
+            ctx = r[1]
+    # the coroutine aggregate the future was built from
+    ups = None
+    r = flow.root(tb, fut, through_calls=("core::future::into_future::IntoFuture::into_future",))
+    if r[0] == "rv" and r[1]["k"] == "agg" and r[1].get("closure") == callee_path:
+        ups = r[1]["ops"]
+    return fut, ctx, ups
+
+
+def _subst_place(pl, base, umap):
+    if pl["l"] == base and pl["p"] and isinstance(pl["p"][0], int) and pl["p"][0] in umap:
+        pl["l"] = umap[pl["p"][0]]
+        pl["p"] = pl["p"][1:]
+
+
+def _subst_operand(op, base, umap):
+    if op.get("k") in ("copy", "move"):
+        _subst_place(op["pl"], base, umap)
+
+
+def _subst_block(b, base, umap):
+    for s in b["stmts"]:
+        if s["k"] == "assign":
+            _subst_place(s["pl"], base, umap)
+            rv = s["rv"]
+            k = rv["k"]
+            if k in ("use", "repeat", "cast"):
+                _subst_operand(rv["op"], base, umap)
+            elif k in ("ref", "rawptr", "discr"):
+                _subst_place(rv["pl"], base, umap)
+            elif k == "binop":
+                _subst_operand(rv["a"], base, umap); _subst_operand(rv["b"], base, umap)
+            elif k == "unop":
+                _subst_operand(rv["a"], base, umap)
+            elif k == "agg":
+                for o in rv["ops"]:
+                    _subst_operand(o, base, umap)
+        elif s["k"] in ("fakeread", "mention", "setdiscr"):
+            _subst_place(s["pl"], base, umap)
+    t = b["term"]
+    if t["k"] in ("call", "tailcall"):
+        for a in t.get("args", []):
+            _subst_operand(a, base, umap)
+        if t.get("dest"):
+            _subst_place(t["dest"], base, umap)
+    elif t["k"] == "drop":
+        _subst_place(t["pl"], base, umap)
+    elif t["k"] == "switch":
+        _subst_operand(t["discr"], base, umap)
+    elif t["k"] == "yield":
+        _subst_operand(t["value"], base, umap)
+
+
+# -- jump threading over inlined returns ------------------------------------------------------------------------------------
+# A helper that returns `true`/`false`, `Ok(..)`/`Err(..)` or (async) `Ready(..)` on different paths merges them in its return block;
+# the caller then branches on that value again. Dominance-based rules would lose the correlation, so each predecessor of such a merge
+# gets its own copy of the short chain up to the deciding switch, and the switch is folded when the value is known on that path.
+
+def _succs_raw(t):
+    k = t["k"]
+    if k in ("goto", "drop", "assert", "yield"):
+        return [t["target"]]
+    if k in ("call", "tailcall"):
+        return [t["target"]] if t.get("target") is not None else []
+    if k == "switch":
+        return [x[1] for x in t["targets"]] + [t["otherwise"]]
+    return []
+
+
+def _rep(env, op):
+    k = op.get("k")
+    if k == "const":
+        if "bool" in op and op["bool"] is not None:
+            return ("int", 1 if op["bool"] else 0)
+        if op.get("int") is not None:
+            try:
+                return ("int", int(op["int"]))
+            except Exception:
+                return None
+        return None
+    if k in ("copy", "move"):
+        pl = op["pl"]
+        if not pl["p"]:
+            return env.get(pl["l"]) or ("local", pl["l"])
+        v = env.get(pl["l"])
+        if v and v[0] == "var" and len(pl["p"]) == 2 and isinstance(pl["p"][0], dict) and pl["p"][0].get("vn") == v[2] and isinstance(pl["p"][1], int):
+            i = pl["p"][1]
+            return v[3][i] if i < len(v[3]) else None
+        if v and v[0] == "var" and len(pl["p"]) == 1 and isinstance(pl["p"][0], int) and v[1] == "tuple":
+            i = pl["p"][0]
+            return v[3][i] if i < len(v[3]) else None
+    return None
+
+
+def _eval_stmt(env, s):
+    if s["k"] != "assign":
+        return
+    pl, rv = s["pl"], s["rv"]
+    if pl["p"]:
+        env.pop(pl["l"], None)
+        return
+    k = rv["k"]
+    val = None
+    if k == "use":
+        val = _rep(env, rv["op"])
+        if val and val[0] == "local":
+            val = None if val[1] == pl["l"] else val
+    elif k == "agg" and rv.get("agg") == "adt":
+        val = ("var", rv["adt"], rv["variant"], [_rep(env, o) for o in rv["ops"]])
+    elif k == "discr" and not rv["pl"]["p"]:
+        v = env.get(rv["pl"]["l"])
+        if v and v[0] == "var":
+            for vv in rv.get("variants", []):
+                if vv["name"] == v[2]:
+                    val = ("int", vv["discr"])
+    elif k == "unop" and rv["op"] == "Not":
+        a = _rep(env, rv["a"])
+        if a and a[0] == "int" and a[1] in (0, 1):
+            val = ("int", 1 - a[1])
+    if val is None:
+        env.pop(pl["l"], None)
+    else:
+        env[pl["l"]] = val
+
+
+def _eval_branch(env, t):
+    """Try::branch on a known Result / Option variant"""
+    a = t["args"][0] if t.get("args") else None
+    d = t.get("dest")
+    if a is None or d is None or d["p"]:
+        return
+    v = _rep(env, a)
+    env.pop(d["l"], None)
+    if v and v[0] == "var":
+        CF = "core::ops::control_flow::ControlFlow"
+        if v[2] in ("Ok", "Some"):
+            env[d["l"]] = ("var", CF, "Continue", [v[3][0] if v[3] else None])
+        elif v[2] in ("Err", "None"):
+            env[d["l"]] = ("var", CF, "Break", [("var", v[1], v[2], v[3])])
+
+
+def thread_jumps(raw, max_chain=48, budget=96):
+    blocks = raw["blocks"]
+    for _round in range(6):
+        preds = {}
+        for i, b in enumerate(blocks):
+            if b.get("cleanup") or b.get("dead"):
+                continue
+            for x in _succs_raw(b["term"]):
+                preds.setdefault(x, []).append(i)
+        progress = False
+        # candidates: the return blocks of inlined callees, and the merge points that lead to one through plain gotos / drops
+        cands = []
+        for m in range(len(blocks)):
+            mb = blocks[m]
+            if mb.get("ret_merge") and not mb.get("dead") and mb.get("jt_clone") is None:
+                cands.append(m)
+                cur, steps = m, 0
+                back = [m]
+                seen_b = {m}
+                while back and steps < 40:
+                    steps += 1
+                    x = back.pop()
+                    for q in preds.get(x, []):
+                        if q in seen_b or blocks[q].get("cleanup") or blocks[q]["term"]["k"] not in ("goto", "drop"):
+                            continue
+                        seen_b.add(q)
+                        back.append(q)
+                        if len(preds.get(q, [])) >= 2 and blocks[q].get("jt_clone") is None:
+                            cands.append(q)
+        def try_fold(m, env):
+            chain, cur, ok, final = [], m, False, None
+            folds = {}          # chain index of a folded switch -> chosen target
+            commit = 0
+            e2 = dict(env)
+            e_commit = None
+            for _ in range(max_chain):
+                b = blocks[cur]
+                if b.get("cleanup") or cur in chain:
+                    break
+                for s in b["stmts"]:
+                    _eval_stmt(e2, s)
+                chain.append(cur)
+                t = b["term"]
+                if t["k"] in ("goto", "drop"):
+                    cur = t["target"]
+                    continue
+                if t["k"] == "call" and strip_generics(t.get("callee", "")) == "core::ops::try_trait::Try::branch" and t.get("target") is not None:
+                    _eval_branch(e2, t)
+                    cur = t["target"]
+                    continue
+                if t["k"] == "switch":
+                    v = _rep(e2, t["discr"])
+                    if v and v[0] == "int":
+                        tgt_ = t["otherwise"]
+                        for val, tg in t["targets"]:
+                            if val == v[1]:
+                                tgt_ = tg
+                        folds[len(chain) - 1] = tgt_
+                        ok = True
+                        final = tgt_
+                        commit = len(chain)
+                        e_commit = dict(e2)
+                        cur = tgt_
+                        continue
+                break
+            if not ok:
+                return None
+            return chain[:commit], folds, final, e_commit
+
+        def emit(chain, folds, final, e2, skip_first):
+            """clone chain (without its first block when skip_first) and return the id the predecessor must jump to"""
+            base = len(blocks)
+            todo = chain[1:] if skip_first else chain
+            off = 1 if skip_first else 0
+            for k_, c in enumerate(todo):
+                nb = copy.deepcopy(blocks[c])
+                nb["id"] = base + k_
+                nb["jt_clone"] = c
+                nb.pop("ret_merge", None)
+                t = nb["term"]
+                if k_ + 1 < len(todo):
+                    if (k_ + off) in folds:
+                        nb["term"] = {"k": "goto", "target": base + k_ + 1, "span": t.get("span", ""), "jt_folded": True}
+                    else:
+                        t["target"] = base + k_ + 1
+                else:
+                    nb["term"] = {"k": "goto", "target": final, "span": t.get("span", ""), "jt_folded": True}
+                    nb["jt_env"] = {str(l): v for l, v in e2.items()}
+                blocks.append(nb)
+            return base if todo else final
+
+        for m in cands:
+            mb = blocks[m]
+            if mb.get("jt_done"):
+                continue
+            # (a) the value is determined in the merge block itself (e.g. `Ready(x)` built in the return block): thread once, in place
+            r0 = try_fold(m, {})
+            if r0 is not None and budget > 0:
+                chain, folds, final, e2 = r0
+                budget -= 1
+                progress = True
+                mb["jt_done"] = True
+                if len(chain) == 1:
+                    mb["term"] = {"k": "goto", "target": final, "span": mb["term"].get("span", ""), "jt_folded": True}
+                    mb["jt_env"] = {str(l): v for l, v in e2.items()}
+                else:
+                    nxt = emit(chain, folds, final, e2, True)
+                    if 0 in folds:
+                        mb["term"] = {"k": "goto", "target": nxt, "span": mb["term"].get("span", ""), "jt_folded": True}
+                    else:
+                        mb["term"]["target"] = nxt
+                mb.pop("ret_merge", None) if False else None
+                continue
+            # (b) the value depends on the path taken into the merge: one private copy of the chain per predecessor
+            for p in list(preds.get(m, [])):
+                if budget <= 0:
+                    break
+                pb = blocks[p]
+                if pb["term"]["k"] not in ("goto", "drop") or p == m or pb.get("cleanup"):
+                    continue
+                env = {}
+                pre = [p]
+                while len(pre) < 5 and len(preds.get(pre[0], [])) == 1:
+                    q = preds[pre[0]][0]
+                    if q in pre or blocks[q].get("cleanup") or blocks[q]["term"]["k"] not in ("goto", "drop"):
+                        break
+                    pre.insert(0, q)
+                for q in pre:
+                    for s in blocks[q]["stmts"]:
+                        _eval_stmt(env, s)
+                r1 = try_fold(m, env)
+                if r1 is None:
+                    continue
+                chain, folds, final, e2 = r1
+                budget -= 1
+                progress = True
+                pb["term"]["target"] = emit(chain, folds, final, e2, False)
+        if not progress:
+            break
+    _prune_and_substitute(raw)
+
+
+def _prune_and_substitute(raw):
+    blocks = raw["blocks"]
+    seen, st = set(), [0]
+    while st:
+        b = st.pop()
+        if b in seen:
+            continue
+        seen.add(b)
+        t = blocks[b]["term"]
+        st.extend(_succs_raw(t))
+        for key in ("unwind", "drop"):
+            if isinstance(t.get(key), int):
+                st.append(t[key])
+    npred = {}
+    for i in seen:
+        for x in _succs_raw(blocks[i]["term"]):
+            npred.setdefault(x, []).append(i)
+    for i, b in enumerate(blocks):
+        if i not in seen and not b.get("cleanup") and not b.get("dead"):
+            b["stmts"] = []
+            b["term"] = {"k": "unreachable", "span": b["term"].get("span", ""), "dead": True}
+            b["dead"] = True
+    # payload substitution: an arm entered only from one folded clone reads the payload of a value whose construction is known
+    def single_def_local(l):
+        n = 0
+        for b in blocks:
+            if b.get("dead"):
+                continue
+            for s in b["stmts"]:
+                if s["k"] == "assign" and s["pl"]["l"] == l and not s["pl"]["p"]:
+                    n += 1
+            t = b["term"]
+            if t["k"] in ("call", "tailcall") and t.get("dest") and t["dest"]["l"] == l:
+                n += 1
+        return n <= 1
+    for c in sorted(seen):
+        if "jt_env" not in blocks[c]:
+            continue
+        env = {int(k): v for k, v in blocks[c]["jt_env"].items()}
+        cur = blocks[c]["term"].get("target")
+        for _ in range(8):
+            if cur is None or len(npred.get(cur, [])) != 1 or blocks[cur].get("cleanup"):
+                break
+            b = blocks[cur]
+            for s in b["stmts"]:
+                if s["k"] != "assign":
+                    continue
+                rv = s["rv"]
+                if rv["k"] == "use" and rv["op"].get("k") in ("copy", "move") and rv["op"]["pl"]["p"]:
+                    v = _rep(env, rv["op"])
+                    if v and v[0] == "local" and single_def_local(v[1]):
+                        rv["op"] = {"k": rv["op"]["k"], "pl": {"l": v[1], "p": []}, "jt_subst": True}
+                _eval_stmt(env, s)
+            if b["term"]["k"] in ("goto", "drop"):
+                cur = b["term"]["target"]
+            else:
+                break
 
 
 def origin_of(body, bb):
